@@ -39,6 +39,11 @@ def extra(ctx, info, rng, *rest):
     cov = __import__("lib.c03conc", fromlist=["run"]).run(ctx, info, rng)
     cov = cov or {}
     cov.update(lease_horizon(ctx, info))
+    # the lease a worker is PROMISED (every 204 to its heartbeat extends) is the lease the store keeps: the heartbeat family of the pull
+    # layer (HTTP and gRPC, both stores) - a second worker gets nothing before the last promised deadline
+    from lib import c04pull
+    hb = c04pull.run(ctx, info, rng, only=c04pull.frag_heartbeat, count=6 if ctx.tier == "quick" else 60) or {}
+    cov["pull_heartbeat"] = {k: v for k, v in hb.items() if isinstance(v, (int, float, str))}
     return cov
 
 
